@@ -216,7 +216,7 @@ def check_dataset(path, df, spec, o, fm):
         return res
     # expected physical table
     import pandas as pd
-    iw = rt.index_expected(df, o)        # decided on the frame as written (before the rows are put into part order)
+    iw = rt.index_as_column(df, o)       # decided on the frame as written (before the rows are put into part order)
     if o.get("partition"):
         pk = o["partition"]["name"]
         by_key = {}
